@@ -138,7 +138,16 @@ def c01_case(res: Result, cls: type, spec: describe.StructSpec, tree: dict, tail
 
     res.count("cases")
     try:
-        inst = describe.tree_to_instance(spec, tree)
+        # timestamps expressed in fixed-offset zones (incl. offsets with a sub-minute / sub-second part): what comes back is the same
+        # instant in UTC, which Python's == accepts as equal for fixed offsets.  (Zones with DST are left to C02/C15: inside a fold
+        # == between zones is False by PEP 495 whatever kio does.)
+        if _has_timestamp(spec) and res.counters["cases"] % 2:
+            describe.INSTANCE_TZ = _FIXED_ZONES[res.counters["cases"] // 2 % len(_FIXED_ZONES)]
+            res.count("cases_with_timestamps_in_other_zones")
+        try:
+            inst = describe.tree_to_instance(spec, tree)
+        finally:
+            describe.INSTANCE_TZ = None
         enc = kio_encode(cls, inst)
     except Exception as exc:  # noqa: BLE001
         res.violation(f"encode-raises:{cls.__name__}:{_exc_key(exc)}",
@@ -301,6 +310,7 @@ def _mk_zones() -> list:
 
 
 _ZONES = _mk_zones()
+_FIXED_ZONES = [z for z in _ZONES if type(z).__name__ == "timezone"]
 _ts_cache: dict[int, bool] = {}
 
 
